@@ -1118,7 +1118,9 @@ def rules(tier):
             # C10-da: the .omn session file opened 'ab' - a second interruption appends behind the first and load_session reads the stale record
             ('C10.R22', _shared_rule('plumbing', 'writers_truncate')),
             # mutation sweep: the length cursor started at index 1
-            ('C10.R23', _shared_rule('c10', 'r23_cursor_starts'))]
+            ('C10.R23', _shared_rule('c10', 'r23_cursor_starts')),
+            # C15-eb: a second writer of the OMEN memo
+            ('C10.R24', _shared_rule('plumbing', 'who_may'))]
 
 
 META = {
